@@ -272,10 +272,17 @@ bus0_sock_send(void *arg, nni_aio *aio)
 
 	msg = nni_aio_get_msg(aio);
 	len = nni_msg_len(msg);
-	nni_aio_set_msg(aio, NULL);
 
 	// this test is so that we detect when the aio itself is terminated,
-	// otherwise we could loop forever.
+	// otherwise we could loop forever.  A refused send leaves the
+	// message, untouched, with the aio (and so with the caller).
+	nni_mtx_lock(&s->mtx);
+
+	if (!nni_aio_start(aio, NULL, NULL)) {
+		nni_mtx_unlock(&s->mtx);
+		return;
+	}
+	nni_aio_set_msg(aio, NULL);
 
 	if (s->raw) {
 		// In raw mode, we look for the message header, to see if it
@@ -287,13 +294,6 @@ bus0_sock_send(void *arg, nni_aio *aio)
 	} else {
 		// In cooked mode just strip the header.
 		nni_msg_header_clear(msg);
-	}
-
-	nni_mtx_lock(&s->mtx);
-
-	if (!nni_aio_start(aio, NULL, NULL)) {
-		nni_mtx_unlock(&s->mtx);
-		return;
 	}
 
 	NNI_LIST_FOREACH (&s->pipes, pipe) {
